@@ -158,7 +158,7 @@ def case_st(max_ops):
         m = draw(st.integers(10, max_ops))
         for _ in range(m):
             if draw(st.integers(0, 9)) < 5:
-                ops.append(["push", draw(st.sampled_from([10, 30, 60, 7]))])
+                ops.append(["push", draw(st.sampled_from([10, 30, 60, 7, 10, 30, 1441]))])
             else:
                 d = draw(st.sampled_from([1, 2, 3, 4]))
                 # slow consumers: small fractions; fast: full
